@@ -190,7 +190,7 @@ func (c15) Gen(seed int64, tier string, emit func(any)) {
 	rng := rand.New(rand.NewSource(seed))
 	n := 700
 	if tier == "thorough" {
-		n = 12000
+		n = 4000
 	}
 	for i := 0; i < n; i++ {
 		r := rng.Intn(100)
